@@ -22,6 +22,10 @@ ASSUME = [
     "run through the unchanged KeepAliveTracker / poll_next code. Real-time keep-alive behaviour is C09",
     "one stimulus at a time, single thread: the interleavings explored are those of inbox contents, polls, calls and "
     "connection-side steps; two services (keep-alive Yes/No) share the manager's substream id allocator",
+    "real-network part: two real nodes over loopback TCP (public API, multi-threaded runtime, single and simultaneous "
+    "dials, force_close from either side racing with open requests, open requests on a protocol the remote lacks); one "
+    "observer per node; 'answered exactly once' is judged only while the nodes are linked by one connection, after waiting "
+    "6x the configured substream open timeout; runs that did not connect or ran on a stalled machine are discarded",
     "TLC bounds: see model_runs / generation in the evidence (1-2 peers, up to 3 connection ids per peer, up to 3 open "
     "requests, inbound substreams, force_close, keep-alive expiry, window between report_connection_closed and task end)",
 ]
@@ -40,14 +44,6 @@ def cfg(**kw):
     for k, v in kw.items():
         d[k] = v
     return d
-
-
-def fix(consts):
-    """write_cfg prints `K = v`; sets given as '= {..}' strings need passing through."""
-    out = {}
-    for k, v in consts.items():
-        out[k] = v
-    return out
 
 
 def write_cfg2(ctx, name, consts, lines):
@@ -87,8 +83,9 @@ def mc_configs(ctx):
         ("subs_lazy", cfg(MaxCid=2, MaxPerPeer=2, MaxOpens=2, MaxInb=1)),
         ("window", cfg(MaxOpens=2, MaxFc=1, SplitClose=True, Eager=E1)),
         ("keepalive", cfg(MaxCid=2, MaxPerPeer=2, MaxOpens=2, MaxInb=1, MaxExp=3, KAs="<- KAAny", Eager=E1)),
-        ("peers2", cfg(Peers=P2, MaxCid=4, MaxPerPeer=2, MaxOpens=2, Eager=E1, EagerCmd=True)),
-        ("peers2x3", cfg(Peers=P2, MaxCid=6, MaxPerPeer=3, MaxOpens=3, Eager="= {0, 1}", EagerCmd=True)),
+        ("peers2", cfg(Peers=P2, MaxCid=4, MaxPerPeer=2, MaxOpens=1, Eager=E1, EagerCmd=True)),
+        # 2 peers, up to 3 connection ids per peer
+        ("peers2x3", cfg(Peers=P2, MaxCid=5, MaxPerPeer=3, MaxOpens=2, Eager="= {0, 1}", EagerCmd=True)),
     ]
 
 
@@ -107,11 +104,10 @@ def gen_configs(ctx):
     return [
         ("life", cfg(MaxInb=1, Clog=True)),
         ("life3", cfg(MaxOverlap=3, MaxInb=1, Eager=E1)),
-        ("subs", cfg(MaxOpens=2, MaxInb=1, Eager=E1, EagerCmd=True)),
-        ("subs2", cfg(MaxCid=2, MaxPerPeer=2, MaxOpens=3, MaxInb=1, Eager=E1)),
+        ("subs", cfg(MaxCid=2, MaxPerPeer=2, MaxOpens=2, MaxInb=1, Eager=E1)),
         ("window", cfg(MaxCid=2, MaxPerPeer=2, MaxOpens=2, MaxFc=1, SplitClose=True, Eager=E1)),
-        ("keepalive", cfg(MaxCid=2, MaxPerPeer=2, MaxOpens=1, MaxInb=1, MaxExp=3, KAs="<- KAAny", Eager=E1, EagerCmd=True)),
-        ("peers2", cfg(Peers=P2, MaxCid=3, MaxPerPeer=2, MaxOpens=2, Eager=E1, EagerCmd=True)),
+        ("keepalive", cfg(MaxCid=2, MaxPerPeer=2, MaxOpens=1, MaxExp=2, KAs="<- KAAny", Eager=E1, EagerCmd=True)),
+        ("peers2", cfg(Peers=P2, MaxCid=2, MaxPerPeer=2, MaxOpens=1, MaxInb=1, Eager=E1)),
     ]
 
 
@@ -146,7 +142,7 @@ def generate(ctx):
     """Behaviours per transition of every generation config, reduced to the maximal ones; the quick tier replays a
     seeded sample of them (the whole set is replayed by the thorough tier; VERIF_SEED moves the sample)."""
     behs, stats = [], []
-    budget = 6000 if ctx.quick() else None
+    budget = 6000 if ctx.quick() else 30000
     per = []
     for name, consts in gen_configs(ctx):
         b, g = tlc_generate(ctx, "SvcLifeMC.tla", write_cfg2(ctx, "gen_%s.cfg" % name, consts, GEN), timeout=1500)
@@ -224,7 +220,7 @@ def pipeline(ctx):
     behs = FIXED + behs
     write_jsonl(ctx.path("behs.jsonl"), behs)
     build_s = cargo_build(ctx, ["svc"])
-    nrand, rlen = (600, 70) if ctx.quick() else (20000, 90)
+    nrand, rlen = (600, 70) if ctx.quick() else (5000, 90)
     nnet = 25 if ctx.quick() else 250
     summ, _ = harness(ctx, "svc", ["--behaviours", ctx.path("behs.jsonl"), "--random", nrand, "--len", rlen,
                                    "--seed", ctx.seed, "--out", ctx.path("trace.ndjson"),
@@ -298,6 +294,7 @@ def evidence(mc, gstats, summ, lines, nseg, nev, drift):
         "model_runs": mc,
         "generation": gstats,
         "harness": summ,
+        "real_network": summ.get("net", {}),
         "stimuli_exercised": kinds,
         "results_observed": results,
         "impl_divergences": len(drift),
@@ -349,7 +346,7 @@ def replay(ctx, path):
 NEG = [
     # (name, constants, invariant expected to fail, rule expected in the monitor (regex) or None)
     ("est_secondary", cfg(MaxCid=2, MaxPerPeer=2, Bug="est_secondary"), "MonOK", "established reported twice"),
-    ("no_promote", cfg(MaxCid=2, MaxPerPeer=2, MaxInb=1, Bug="no_promote"), "MonOK", "not connected"),
+    ("no_promote", cfg(MaxCid=2, MaxPerPeer=2, MaxInb=1, Bug="no_promote"), "MonOK|NoPanicInScope", "not connected|panic"),
     ("answer_lost", cfg(MaxCid=1, MaxPerPeer=1, MaxOpens=1, Bug="answer_lost"), "QuiesceOK", None),
     ("id_reuse", cfg(MaxCid=1, MaxPerPeer=1, MaxOpens=2, Bug="id_reuse"), "MonOK", "identifier reused"),
     ("mgr_first", cfg(MaxInb=1, Bug="mgr_first", Eager=E1), "MonOK|NoPanicInScope", "not connected|panic"),
@@ -370,9 +367,9 @@ def selftest(ctx):
     ok &= not rej
     rnd = random.Random(ctx.seed)
 
-    def corrupt(name, pick, mutate, expect):
+    def corrupt(name, pick, mutate, expect, among=None):
         nonlocal ok
-        cand = [i for i, ln in enumerate(lines) if pick(json.loads(ln))]
+        cand = [i for i, ln in enumerate(lines) if pick(json.loads(ln))] if among is None else among
         if not cand:
             log("selftest corrupt %s: no candidate line" % name)
             ok = False
@@ -410,8 +407,21 @@ def selftest(ctx):
 
     second_open = lambda d: False
     cand2 = [i for i, ln in enumerate(lines) if isret("open", "ok")(json.loads(ln)) and earlier_id(i) is not None]
-    corrupt("closed event dropped", isret("poll", "closed"), lambda e: e["ret"].update(k="pending"),
-            "established reported twice|not connected|closed reported without established")
+    def reestablished(i):
+        """the closed event at line i is followed, in the same execution, by an established event for the same
+        protocol and peer (a closed event nothing follows cannot be missed by any observer)"""
+        d = json.loads(lines[i])
+        for j in range(i + 1, len(lines)):
+            if '"e":"reset"' in lines[j]:
+                return False
+            e = json.loads(lines[j])
+            if isret("poll", "est")(e) and e["s"]["q"] == d["s"]["q"] and e["ret"]["p"] == d["ret"]["p"]:
+                return True
+        return False
+
+    corrupt("closed event dropped", None, lambda e: e["ret"].update(k="pending"),
+            "established reported twice|not connected|closed reported without established",
+            among=[i for i, ln in enumerate(lines) if isret("poll", "closed")(json.loads(ln)) and reestablished(i)])
     corrupt("spurious closed event", isret("poll", "pending"), lambda e: e.update(ret={"k": "closed", "p": "p3"}),
             "closed reported without established")
     corrupt("answer id changed", isret("poll", "failed"), lambda e: e["ret"].update(id=e["ret"]["id"] + 1000), "never returned")
